@@ -173,7 +173,13 @@ mpn_inv_divappr_q (mp_ptr qp, mp_ptr np, mp_size_t nn,
       qp -= qn;
       np -= dn;
       qsave = qp[qn];
-      cy = mpn_inv_divappr_q_n (qp, np - dn, dp - dn, dn, dinv);
+      /* The 2*dn limb window {np - dn, 2*dn} starts one limb below the
+         dividend; that limb is logically zero.  mpn_inv_divappr_q_n reads it
+         in its multiply-out special case, so divide a zero extended copy.  */
+      temp = TMP_ALLOC_LIMBS (2*dn);
+      temp[0] = 0;
+      MPN_COPY (temp + 1, np - dn + 1, 2*dn - 1);
+      cy = mpn_inv_divappr_q_n (qp, temp, dp - dn, dn, dinv);
       if (UNLIKELY(cy)) mpn_sub_1(qp, qp, dn, 1);
       MPN_COPY_INCR (qp, qp + 1, qn);
       qp[qn] = qsave;
@@ -209,6 +215,15 @@ mpn_inv_divappr_q (mp_ptr qp, mp_ptr np, mp_size_t nn,
 	{
    	    tp = TMP_ALLOC_LIMBS (qn + 1);
 	    mpn_invert_trunc(tp, qn + 1, dinv, dn, dp - dn);
+	    if (dn == qn + 1)
+	      {
+	        /* window starts one limb below the dividend, see above */
+	        temp = TMP_ALLOC_LIMBS (2*(qn + 1));
+	        temp[0] = 0;
+	        MPN_COPY (temp + 1, np - qn - 1, 2*qn + 1);
+	        qh = mpn_inv_divappr_q_n (q2p, temp, dp - (qn + 1), qn + 1, tp);
+	      }
+	    else
            qh = mpn_inv_divappr_q_n (q2p, np - qn - 2, dp - (qn + 1), qn + 1, tp);
        }
 
